@@ -137,8 +137,16 @@ pub fn child(k: usize, outdir: &str, seed: u64, thorough: bool) -> serde_json::V
             let y = match y { Ok(Some(v)) if v == Value::none() && !vs.iter().any(|a| *a == Value::none()) => Ok(None), other => other };
             st.evaluations += 1;
             let key = format!("{:?}|{}|{}", f, dts.iter().map(|d| d.to_string()).collect::<Vec<_>>().join(","), vs.iter().map(|v| v.to_string()).collect::<Vec<_>>().join(","));
+            // which of the listed weaknesses of sin / cos a deviation falls under
+            fn span(t: &Ty) -> (usize, f64, f64) { match t { Ty::Int(v) => (v.len(), v.iter().map(|x| x.0 as f64).fold(f64::INFINITY, f64::min), v.iter().map(|x| x.1 as f64).fold(f64::NEG_INFINITY, f64::max)),
+                Ty::Float(v) => (v.len(), v.iter().map(|x| x.0).fold(f64::INFINITY, f64::min), v.iter().map(|x| x.1).fold(f64::NEG_INFINITY, f64::max)), Ty::Opt(x) => span(x), _ => (1, 0.0, 0.0) } }
+            let (sn, slo, shi) = span(&tys[0]);
+            // an integer range is enumerated into points before the period shift: it behaves as a union
+            let enumerated = { fn is_int(t: &Ty) -> bool { match t { Ty::Int(_) | Ty::Bool(_) => true, Ty::Opt(x) => is_int(x), _ => false } } is_int(&tys[0]) };
+            let pclass = if slo.abs() > 4.5e15 || shi.abs() > 4.5e15 { "huge-argument" } else if (sn > 1 || enumerated) && shi - slo > 6.3 { "wide-union" } else { "other" };
             let desc = |kind: &str, extra: serde_json::Value| json!({"kind":kind,"function":format!("{:?}", f),"all_arguments_null":vs.iter().all(|a| *a == Value::none()),
                 "integer_value_float_range":extra.get("range").and_then(|x| x.as_str()).map(|x| x.starts_with("float") || x.starts_with("option(float")).unwrap_or(false) && extra.get("value").and_then(|x| x.as_str()).map(|x| x.parse::<i64>().is_ok()).unwrap_or(false) && vs.iter().any(|a| matches!(a, Value::Float(x) if x.fract() == 0.0)),
+                "periodic_class": if extra.get("ulp_close").and_then(|b| b.as_bool()).unwrap_or(false) { "ulp" } else { pclass },
                 "some_argument_null":vs.iter().any(|a| *a == Value::none()) && !vs.iter().all(|a| *a == Value::none()),
                 "optional_and_plain_arguments":vs.iter().any(|a| matches!(a, Value::Optional(_))) && !vs.iter().all(|a| matches!(a, Value::Optional(_))),"negative_zero":vs.iter().any(|a| matches!(a, Value::Float(x) if **x == 0.0)) && (dts.iter().any(|d| d.to_string().contains("-0")) || vs.iter().any(|a| matches!(a, Value::Float(x) if **x == 0.0 && x.is_sign_negative()))),"ulp_close":extra.get("ulp_close").and_then(|b| b.as_bool()).unwrap_or(false),"types":dts.iter().map(|d| d.to_string()).collect::<Vec<_>>(),"arguments":vs.iter().map(|v| v.to_string()).collect::<Vec<_>>(),"detail":extra});
             match (&y, &img) {
